@@ -87,6 +87,13 @@ func (c *Cluster) storeHook(path, kind, phase string) error {
 	if c.storePointHook != nil {
 		c.storePointHook(n, kind, phase)
 	}
+	if phase == "pre" && kind == "frame" && c.cfg.PFrameErr > 0 && !c.fairMode && n.running() && c.inner.Bool(c.cfg.PFrameErr) {
+		// transient error while the frame of a decided round is written: the
+		// consensus pass gives up before it has touched anything else of that
+		// round, and the next pass finds the frame in the cache and goes on
+		c.stats.fault("frame-write-error")
+		return fmt.Errorf("injected write error (frame)")
+	}
 	if phase == "pre" && c.cfg.PStoreErr > 0 && !c.fairMode && c.inner.Bool(c.cfg.PStoreErr) {
 		// transient write error (full disk, I/O error): this commit fails, the
 		// node keeps running
